@@ -1,12 +1,13 @@
 import RJson.Props.C03Complete
 import RJson.Props.C04Short
+import RJson.Props.C04All
 /-!
 # C03 — the number leaves of the decoded tree are the correctly rounded values
 
 `Tree.treeOf` takes a number leaf from `Tree.numOf`, i.e. from `ParseJSONFloatPrefix`. With `C04.parse_correct_short`:
 for every number literal with at most 60 mantissa digits the leaf is the binary64 nearest to the literal's exact
 decimal value (ties to even), and the leaf is absent — the whole value is rejected — exactly when that rounded value
-overflows. So for documents whose numbers have at most 60 mantissa digits, `C03.readValue_tree` /
+overflows; with `C04.parse_correct_all` (`numOf_all`) the same holds for every number literal. So `C03.readValue_tree` /
 `readValue_complete` speak about the mathematically specified tree, not merely about "what the float parser returns".
 -/
 namespace RJson.C03
@@ -17,6 +18,21 @@ theorem numOf_short (v rest : List UInt8) (hscan : scanNumber v = some rest)
     numOf v = if (C04.rounded (v.take (v.length - rest.length))).2 then none
               else some (C04.rounded (v.take (v.length - rest.length))).1 := by
   have key := C04.parse_correct_short v.toArray rest (by simpa using hscan) (by simpa using hlen)
+  simp only [List.toList_toArray] at key
+  obtain ⟨_, he, hb⟩ := key
+  simp only [numOf]
+  cases hr : (C04.rounded (v.take (v.length - rest.length))).2 with
+  | true => rw [hr] at he; simp [he]
+  | false =>
+    rw [hr] at he
+    simp only [he, Bool.false_eq_true, if_false]
+    rw [hb he]
+
+/-- **every number leaf is the correctly rounded value** (`C04.parse_correct_all`): no bound on the digits -/
+theorem numOf_all (v rest : List UInt8) (hscan : scanNumber v = some rest) :
+    numOf v = if (C04.rounded (v.take (v.length - rest.length))).2 then none
+              else some (C04.rounded (v.take (v.length - rest.length))).1 := by
+  have key := C04.parse_correct_all v.toArray rest (by simpa using hscan)
   simp only [List.toList_toArray] at key
   obtain ⟨_, he, hb⟩ := key
   simp only [numOf]
